@@ -40,11 +40,32 @@ PROPS = {
              shards=(8, 16), n=(12, 150),
              trusted=["json-gold expansion and URDNA2015 (canonical labelling and quad order): not modelled; tied by the metamorphic run and the model root",
                       "HashCR (idealised hash) for the sensitivity theorems"]),
+    "C10": P("cases = every literal entry of generated merklized documents (5 hashers; all supported datatypes; JSON numbers, numeric strings, booleans, strings; single values, arrays, nested and mixed arrays): "
+             "(JSONLDType(path), RawValue(path)) fed to HashValueWithHasher and to the model; non-trivial = every literal; distinct = distinct (hasher, datatype, Go-typed value) hashes",
+             shards=(8, 16), n=(40, 600),
+             trusted=["json-gold compaction (RawValue reads the compacted document)", "ld.GetCanonicalDouble (oracle column)"]),
+    "C16": P("cases = generated documents processed under each of 5 hashers (salted byte hashing, shifted element hashing, small primes 65537 and 2^61-1, Poseidon) while the global default hasher is a poison hasher "
+             "returning distinctive constants: (a) full document case vs the model incl. member/non-member proofs, (b) derived objects: stored key/value hashes recomputed with the statement's own hashing, "
+             "Options().NewPath / NewRDFEntry / MkValue, proofs verified with the keys and values handed out, merklizer restored from bytes with the same hasher; every case non-trivial; distinct = distinct (op,input) hashes",
+             shards=(8, 16), n=(15, 300),
+             trusted=["the alternative hashers are defined twice (harness/common.go and lean/Gsp/Model/Hasher.lean) and cross-checked by the preflight"]),
 }
 
 NOT_APPLICABLE = {}
 
 MANIFEST_TEXT = {
+    "C10": dict(
+        text="Lean theorems (Gsp.Props.C10): valueToHash h dt raw equals the stored leaf value convert dt lit >>= enc h for every natural rendering of one value: identical strings (standalone_eq_leaf_string), "
+             "any two spellings denoting the same integer incl. float64 canonical spellings (standalone_eq_leaf_int), JSON booleans and 0/1 (standalone_eq_leaf_bool, standalone_bool_01), doubles under idempotent "
+             "canonicalisation (standalone_eq_leaf_double); the decoded value's kind is the one implied by the datatype (value_kind). Tie: for every literal of generated documents the real "
+             "HashValueWithHasher(JSONLDType(p), RawValue(p)) is compared with the model and, as direct predicate, with the stored leaf value.",
+        note="Known finding F1: sibling positions (RawValue reads document array order and counts all members; stored indices follow canonical quad order, literals and nodes numbered separately) - reported as KNOWN-FINDING when the "
+             "stored value is found under the same path at other array positions; any other failure is a violation."),
+    "C16": dict(
+        text="Lean theorems (Gsp.Props.C16 over Gsp.Cfg): with a configured hasher the entries, their key and value hashes, option-created paths/entries and integer ranges do not depend on the default hasher, for all "
+             "defaults at once (entries_noninterference, stored_hashes_use_configured, options_objects_use_configured, range_follows_configured_prime); the value handed out with a proof hashes to the stored leaf and the proof verifies "
+             "(handed_out_value_is_leaf, from C02). Tie: the poison-default experiment on the real code under 5 hashers, compared with the model (which has no default at all) and with the statement's own hashing.",
+        note="Gsp.Cfg models where cfg/default enter (Options.getHasher, RDFEntry.getHasher, EntriesFromRDFWithHasher); defect D7 was found by this correspondence and fixed in /repo (a899df7)."),
     "C03": dict(
         text="Lean theorems: the content of the tree (key -> value map) is independent of insertion order (content_perm_indep, from lookup_addAll); under the idealised-hash hypothesis equal roots mean equal trees "
              "(root_binds_tree) so any single-field value change, addition or removal changes the root (value_change_changes_root, presence_change_changes_root). The model's entries/root are functions of the "
